@@ -56,6 +56,12 @@ type Act struct {
 	Data bool        `json:"data,omitempty"` // quote: the data fee is replaced (else the standard fee)
 	Unit ref.FeeUnit `json:"unit,omitempty"`
 	Tag  int         `json:"tag,omitempty"` // quote: FeeType field of the registered fee object
+	Via   string      `json:"via,omitempty"`   // quote: the exported way the quote object is changed (ref.FeeQuoteEdit.Via)
+	Unit2 ref.FeeUnit `json:"unit2,omitempty"` // quote via unmarshal: new rate of the other type
+}
+
+func (a Act) edit() ref.FeeQuoteEdit {
+	return ref.FeeQuoteEdit{Via: a.Via, Data: a.Data, Unit: a.Unit, Unit2: a.Unit2, Tag: a.Tag}
 }
 
 func actOK(a Act) bool {
@@ -63,7 +69,7 @@ func actOK(a Act) bool {
 	case "", "query":
 		return true
 	case "quote":
-		return a.Unit.Bytes >= 1 && a.Unit.Sat >= 0 && a.Unit.Sat <= 1000000 && a.Unit.Bytes <= 1000000
+		return ref.FeeQuoteEditOK(a.edit())
 	}
 	return false
 }
@@ -73,18 +79,15 @@ func actModel(c Case, i int, q *ref.FeeQuote) {
 	if i >= len(c.Acts) || c.Acts[i].Kind != "quote" {
 		return
 	}
-	if c.Acts[i].Data {
-		q.Data = c.Acts[i].Unit
-	} else {
-		q.Std = c.Acts[i].Unit
-	}
+	ref.FeeQuoteEditModel(q, c.Acts[i].edit())
 }
 
 // actLib performs action i of the case on the caller's objects.
-func actLib(c Case, i int, q ref.FeeQuote, tx *bt.Tx, fq *bt.FeeQuote) {
+func actLib(c Case, i int, q *ref.FeeQuote, tx *bt.Tx, lq *ref.FeeQuoteLib) error {
 	if i >= len(c.Acts) {
-		return
+		return nil
 	}
+	fq := lq.Q
 	switch a := c.Acts[i]; a.Kind {
 	case "query":
 		_ = tx.Size()
@@ -94,12 +97,9 @@ func actLib(c Case, i int, q ref.FeeQuote, tx *bt.Tx, fq *bt.FeeQuote) {
 		_, _ = tx.EstimateIsFeePaidEnough(fq)
 		_ = tx.TotalInputSatoshis()
 	case "quote":
-		if a.Data {
-			fq.AddQuote(bt.FeeTypeData, ref.FeeLibFee(bt.FeeTypeData, a.Unit, q.DataRelay, a.Tag))
-		} else {
-			fq.AddQuote(bt.FeeTypeStandard, ref.FeeLibFee(bt.FeeTypeStandard, a.Unit, q.StdRelay, a.Tag))
-		}
+		return lq.Apply(q, a.edit())
 	}
+	return nil
 }
 
 func expand(c Case) Case {
@@ -371,21 +371,29 @@ func check(ctx *pbt.Ctx, c Case) error {
 		ctx.Discard(err.Error())
 		return nil
 	}
-	return judgeFund(ctx, c, want, ref.ToLib(c.Tx), ref.FeeQuoteToLibTagged(c.Quote))
+	lq, err := ref.FeeQuoteBuild(c.Quote)
+	if err != nil {
+		return fmt.Errorf("building the quote object: %v", err)
+	}
+	ctx.After(lq.Unmodified)
+	ctx.Labelf("quote-build=%d", c.Quote.Build)
+	return judgeFund(ctx, c, want, ref.ToLib(c.Tx), lq)
 }
 
 // judgeFund runs one Fund call on the library object tx with the quote object fq and the
 // supplier history of c (batches, terminator) and compares it with want, the model's run from
 // c.Tx - the independent model of the transaction as it stands when Fund is called - under
 // the rates c.Quote.
-func judgeFund(ctx *pbt.Ctx, c Case, want modelResult, tx *bt.Tx, fq *bt.FeeQuote) error {
+func judgeFund(ctx *pbt.Ctx, c Case, want modelResult, tx *bt.Tx, lq *ref.FeeQuoteLib) error {
+	fq := lq.Q
+	var actErr error
 	// ---- run the library with an instrumented supplier --------------------------------
 	before := ref.FromLib(tx)
 	var got []uint64
 	handed := 0
 	var handedOut []U
 	afterEnd := 0
-	libQ := c.Quote // relay rates for the fee objects the callback registers
+	libQ := c.Quote // the callback's own view of the quote it updates
 	next := func(_ context.Context, deficit uint64) ([]*bt.UTXO, error) {
 		got = append(got, deficit)
 		if handed >= len(c.Batches) {
@@ -394,7 +402,9 @@ func judgeFund(ctx *pbt.Ctx, c Case, want modelResult, tx *bt.Tx, fq *bt.FeeQuot
 				afterEnd++
 				return nil, bt.ErrNoUTXO
 			}
-			actLib(c, len(got)-1, libQ, tx, fq)
+			if err := actLib(c, len(got)-1, &libQ, tx, lq); err != nil && actErr == nil {
+				actErr = err
+			}
 			handed++
 			switch c.End {
 			case "exhausted":
@@ -404,7 +414,9 @@ func judgeFund(ctx *pbt.Ctx, c Case, want modelResult, tx *bt.Tx, fq *bt.FeeQuot
 			}
 			return nil, fmt.Errorf("wallet backend: %w", errSupplier)
 		}
-		actLib(c, len(got)-1, libQ, tx, fq)
+		if err := actLib(c, len(got)-1, &libQ, tx, lq); err != nil && actErr == nil {
+			actErr = err
+		}
 		b := c.Batches[handed]
 		handed++
 		out := make([]*bt.UTXO, 0, len(b))
@@ -419,6 +431,9 @@ func judgeFund(ctx *pbt.Ctx, c Case, want modelResult, tx *bt.Tx, fq *bt.FeeQuot
 		return out, nil
 	}
 	ferr := tx.Fund(context.Background(), fq, next)
+	if actErr != nil {
+		return fmt.Errorf("the supplier callback could not update the caller's quote object: %v", actErr)
+	}
 	after := ref.FromLib(tx)
 	gotClass := classOf(ferr)
 
@@ -455,6 +470,7 @@ func judgeFund(ctx *pbt.Ctx, c Case, want modelResult, tx *bt.Tx, fq *bt.FeeQuot
 		switch c.Acts[i].Kind {
 		case "quote":
 			ctx.Label("callback-updates-quote")
+			ctx.Label("callback-updates-quote:via=" + c.Acts[i].edit().Via)
 			if i < want.handed {
 				ctx.Label("callback-updates-quote-before-a-later-estimate")
 			}
@@ -591,6 +607,20 @@ func feeTagLabel(q ref.FeeQuote) string {
 	return "fee-type-field=key"
 }
 
+// genQuoteVia draws the exported way a quote object in use is changed.
+func genQuoteVia(t *rapid.T, label string) string {
+	return rapid.SampledFrom([]string{"addquote", "addquote", "addquote", "unmarshal", "unmarshal", "shared", "fetched", "fetched-other-quote", "unmarshal-partial", "updateminerfees", "expiry"}).Draw(t, label)
+}
+
+// genQuoteBuild draws how the quote object is filled in the first place and adapts the model
+// where the way implies it (one shared fee object: both types carry the same rates).
+func genQuoteBuild(t *rapid.T, q *ref.FeeQuote) {
+	q.Build = []int{ref.FeeBuildAddQuote, ref.FeeBuildAddQuote, ref.FeeBuildAddQuote, ref.FeeBuildShared, ref.FeeBuildFetched, ref.FeeBuildUnmarshal, ref.FeeBuildContainer, ref.FeeBuildUsedBefore}[rapid.IntRange(0, 7).Draw(t, "quote_build")]
+	if q.Build == ref.FeeBuildShared {
+		q.Data, q.DataRelay = q.Std, q.StdRelay
+	}
+}
+
 func genBadScript(t *rapid.T) pbt.Hex {
 	switch rapid.IntRange(0, 3).Draw(t, "badscript_k") {
 	case 0:
@@ -611,6 +641,7 @@ func genCase(t *rapid.T) Case {
 	c.Tx.LockTime = rapid.SampledFrom([]uint32{0, 1, 500000000, 0xffffffff}).Draw(t, "locktime")
 	c.Quote = ref.FeeQuote{Std: genUnit(t, "std"), Data: genUnit(t, "data"), StdRelay: genUnit(t, "stdrelay"), DataRelay: genUnit(t, "datarelay"),
 		StdTag: genFeeTag(t, "stdtag"), DataTag: genFeeTag(t, "datatag")}
+	genQuoteBuild(t, &c.Quote)
 	nout := []int{1, 2, 0, 3, 4, 5}[rapid.IntRange(0, 5).Draw(t, "nout")]
 	for i := 0; i < nout; i++ {
 		var o ref.Out
@@ -714,12 +745,9 @@ func genBatches(t *rapid.T, start ref.Tx, q ref.FeeQuote) (batches [][]U, acts [
 		case 8:
 			a.Kind = "query"
 		case 9:
-			a = Act{Kind: "quote", Data: rapid.Bool().Draw(t, "act_data"), Unit: genUnit(t, "act_unit"), Tag: genFeeTag(t, "act_tag")}
-			if a.Data {
-				q.Data = a.Unit
-			} else {
-				q.Std = a.Unit
-			}
+			a = Act{Kind: "quote", Data: rapid.Bool().Draw(t, "act_data"), Unit: genUnit(t, "act_unit"), Tag: genFeeTag(t, "act_tag"),
+				Via: genQuoteVia(t, "act_via"), Unit2: genUnit(t, "act_unit2")}
+			ref.FeeQuoteEditModel(&q, a.edit())
 		}
 		acts = append(acts, a)
 	}
